@@ -71,6 +71,8 @@ def worker_main(prop_id, tier, wid, nworkers, verif_seed, budget, max_cases,
     faulthandler.dump_traceback_later(budget * 3 + 240, exit=True)
     from . import registry
     from . import sim
+    from . import workload
+    workload.TIER = tier
     prop = registry.get(prop_id)
     t0 = time.time()
     rep = {
